@@ -39,6 +39,7 @@ func (w *World) contractFor(fn *ssa.Function) *Contract {
 }
 
 func (vc *VC) call(st *State, in ssa.Instruction, c *ssa.CallCommon) Val {
+	vc.curCall = c
 	var resT types.Type
 	if v, ok := in.(ssa.Value); ok {
 		resT = v.Type()
@@ -140,7 +141,7 @@ func (vc *VC) callFunction(st *State, callee *ssa.Function, free []Val, args []V
 			}
 		}
 	}
-	if r, ok := vc.intrinsic(st, name, args, nil, resT, pos); ok {
+	if r, ok := vc.intrinsic(st, name, args, vc.curCall, resT, pos); ok {
 		return r
 	}
 	if con := vc.W.contractFor(callee); con != nil && !(callee == vc.Fn) {
@@ -165,6 +166,9 @@ func (vc *VC) callFunction(st *State, callee *ssa.Function, free []Val, args []V
 			}
 		}
 		return vc.applyContract(st, con, name, args, names, resT, pos)
+	}
+	if vc.W.isPure(name) {
+		return vc.havocCall(st, name, args, resT, false)
 	}
 	// inline small in-repo functions without loops
 	if callee.Blocks != nil && vc.W.inRepo(callee) && vc.depth < 3 && !hasLoop(callee) && callee != vc.Fn {
@@ -414,6 +418,20 @@ func (vc *VC) applyContract(st *State, con *Contract, name string, args []Val, p
 		g := vc.specBool(env, cl)
 		vc.addObl("pre", fmt.Sprintf("pre@%s#%d.%d", short, site, cl.Index), st, g, pos, nil, "precondition of "+name+": "+cl.Text)
 		st.assume(vc, g)
+	}
+	// caller-side protocol obligations on this callee ("callsite" clauses of the function under contract)
+	if vc.depth == 0 && vc.Con != nil {
+		for _, cl := range vc.Con.Of("callsite") {
+			if cl.Name != short && cl.Name != lastSeg(short) {
+				continue
+			}
+			cenv := vc.funcEnvAt(st, pos)
+			for k, v := range vars {
+				cenv.vars[k] = v
+			}
+			g := vc.specBool(cenv, cl)
+			vc.addObl("site", fmt.Sprintf("site@%s#%d.%d", short, site, cl.Index), st, g, pos, cl.Tags, "call-site obligation on "+name+": "+cl.Text)
+		}
 	}
 	// the callee's declared panic conditions must be excluded here, or be among the caller's own declared ones
 	for _, cl := range con.Of("panics-when") {
